@@ -25,21 +25,27 @@ NEEDS = {"cmds": ["kvdrv"], "specs": ["KVWrappers", "Trace_KVWrappers"]}
 def stack_name(stack):
     if not stack:
         return "mem"
-    return "/".join(l["t"] + ("(%s)" % "".join("%02x" % b for b in l["p"]) if l["t"] == "prefix" else "") for l in stack) + "/mem"
+    return "/".join(l["t"] + ("(%s%s)" % ("".join("%02x" % b for b in l["p"]), "+cap" if l.get("cap") else "") if l["t"] == "prefix" else "")
+                    for l in stack) + "/mem"
 
 
 def has(stack, t):
     return any(l["t"] == t for l in stack)
 
 
-def program_from_hist(h, pid):
+def with_caps(stack, cap):
+    """driver-only attribute of prefix layers: spare capacity of the []byte handed to prefix.NewStore"""
+    return [dict(l, cap=cap) if l["t"] == "prefix" else dict(l) for l in stack]
+
+
+def program_from_hist(h, pid, cap=0):
     ops, exp = [], []
     for e in h["hist"]:
         if e["a"]["op"] == "End":
             break
         ops.append(e["a"])
         exp.append({"r": e["o"]["r"], "gas": e["o"]["gas"], "pan": e["o"]["pan"], "tr": e["o"]["tr"], "b": e["b"]})
-    return {"id": pid, "stack": h["stack"], "meter": h["meter"], "init": h["init"], "ops": ops, "exp": exp,
+    return {"id": pid, "stack": with_caps(h["stack"], cap), "meter": h["meter"], "init": h["init"], "ops": ops, "exp": exp,
             "gx": h["gx"], "tx": h["tx"]}
 
 
@@ -106,9 +112,10 @@ def compare(out, p, obs, source):
                 continue
             if field == "gas" and want["pan"] == "GasOverflow":
                 continue   # after an overflow the meter holds no meaningful total (the driver reports -1)
-            if panicked and (field in ("b", "tr") or want["pan"] == "GasOverflow" or field == "gas"):
-                # what a panicking operation leaves behind (meter value, partial effects) is transcribed in the
-                # specification but not fixed by the property text: recorded, not a violation
+            if panicked and field in ("tr", "gas"):
+                # the meter value and the trace lines a panicking operation leaves behind are transcribed in the
+                # specification but not fixed by the property text: recorded, not a violation.  The CONTENT of the
+                # stores is different: an operation that runs out of gas must not have taken effect (field "b").
                 out.notes.setdefault("nonconformance_after_panic", [])
                 if len(out.notes["nonconformance_after_panic"]) < 5:
                     out.notes["nonconformance_after_panic"].append(
@@ -141,7 +148,7 @@ def rand_stack(rng):
         kinds = [k for k in kinds if k != "cache"]
         lowest_obs = max([i for i, k in enumerate(kinds) if k in ("gas", "trace")] + [-1])
         kinds.insert(rng.randint(lowest_obs + 1, len(kinds)), "cache")
-    return [{"t": k, "p": rng.choice(PREFIXES) if k == "prefix" else []} for k in kinds]
+    return [{"t": k, "p": rng.choice(PREFIXES) if k == "prefix" else [], "cap": rng.choice([0, 1, 8]) if k == "prefix" else 0} for k in kinds]
 
 
 def rand_ops(rng, stack, n, keys):
@@ -238,9 +245,11 @@ def validate_random(out, d, seed, n_prog, n_ops, n_variants):
     obs = run_driver_programs(progs, d, "rand1")
     # the ndjson trace: header, then per program a Reset event and one event per executed operation
     stacks, ukeys, events, index = [], [], [], []
+    def nocap(stack):
+        return [{"t": l["t"], "p": l["p"]} for l in stack]
     for p in progs:
-        if p["stack"] not in stacks:
-            stacks.append(p["stack"])
+        if nocap(p["stack"]) not in stacks:
+            stacks.append(nocap(p["stack"]))
     allkeys = sorted({tuple(k) for p in progs for k in p["keys"]})
     basekeys = sorted({tuple(kv[0]) for p in progs for kv in p["init"]} |
                       {tuple(sum([l["p"] for l in reversed(p["stack"]) if l["t"] == "prefix"], []) + list(k))
@@ -248,7 +257,7 @@ def validate_random(out, d, seed, n_prog, n_ops, n_variants):
     events.append({"op": "Header", "stacks": stacks, "userkeys": [list(k) for k in allkeys], "basekeys": [list(k) for k in basekeys]})
     index.append(None)
     for p, r in zip(progs, obs):
-        events.append({"op": "Reset", "k": [], "v": [], "st": [], "en": [], "asc": True, "stack": p["stack"], "meter": p["meter"],
+        events.append({"op": "Reset", "k": [], "v": [], "st": [], "en": [], "asc": True, "stack": nocap(p["stack"]), "meter": p["meter"],
                        "init": p["init"], "o": {"r": "ok", "gas": 0, "pan": "", "tr": []}, "b": p["init"]})
         index.append((p, -1))
         for j, o in enumerate(r["obs"]):
@@ -331,7 +340,9 @@ def run(prop, tier, seed):
         progs = []
         for k in sorted(byprefix):
             for h in byprefix[k][:2]:
-                progs.append(program_from_hist(h, "sim%d" % len(progs)))
+                progs.append(program_from_hist(h, "sim%d" % len(progs), cap=0))
+                if has(h["stack"], "prefix"):
+                    progs.append(program_from_hist(h, "sim%d+cap" % (len(progs) - 1), cap=8))
         out.add_tlc(res, "KVWrappers simulation, %d behaviours" % len(byprefix))
         if not progs:
             raise common.ToolError("simulation produced no behaviours")
@@ -371,8 +382,8 @@ def run(prop, tier, seed):
         "creation, Valid, Next and Close write no line",
         "gas/trace layers BELOW a cache layer see the cache's memoised reads and merge-iterator internals: only results, panics "
         "and base content are compared for those stacks",
-        "what a panicking operation leaves behind (meter value after OutOfGas/overflow, partial effects) is recorded as "
-        "nonconformance, not as a violation: the property fixes the operation at which the panic is raised",
+        "the meter value and the trace lines a panicking operation leaves behind are recorded as nonconformance, not as a "
+        "violation; the store content is compared also after a panic: an operation that runs out of gas must not have taken effect",
         "ReadCostPerByte*len(value) cannot overflow uint64 with in-memory values; only the running total is driven to 2^64",
     ]
     return out
